@@ -671,7 +671,32 @@ func (b *bgen) injectPlus(rootDefs, paths M, aux map[string]M) (mustFail bool, w
 		paths[fmt.Sprintf("/plus/%d", len(paths))] = M{g.pick(allMethods): resp(schema)}
 	}
 	for i, k := 0, 1+g.n(2); i < k; i++ {
-		switch g.n(9) {
+		switch g.n(10) {
+		case 9:
+			// a sub-schema that contains itself through an anonymous pointer (map / array / property of itself), with one
+			// to three callers of that pointer: once the holder has been named, the keys below it are stale
+			self := "#/definitions/plusTree/properties/children"
+			var kids M
+			switch g.n(4) {
+			case 0:
+				kids = M{"type": "object", "additionalProperties": M{"$ref": self}}
+			case 1:
+				kids = M{"type": "array", "items": M{"$ref": self}}
+			case 2:
+				kids = M{"type": "object", "properties": M{"next": M{"$ref": self}, "v": M{"type": "string"}}}
+			default:
+				kids = M{"type": "array", "items": []any{M{"type": "string"}, M{"$ref": self}}, "additionalItems": M{"$ref": self}}
+			}
+			rootDefs["plusTree"] = M{"type": "object", "properties": M{"label": M{"type": "string"}, "children": kids}}
+			addPath(M{"$ref": "#/definitions/plusTree"})
+			for j, c := 0, g.n(3); j < c; j++ {
+				if g.p(0.5) {
+					addPath(M{"$ref": self})
+				} else {
+					addPath(M{"type": "array", "items": M{"$ref": self}})
+				}
+			}
+			what = append(what, "self-containing-pointer-target")
 		case 7:
 			// a path-level parameter that is not in: body yet carries a schema (loadable, invalid Swagger) whose $ref cannot
 			// be resolved: Flatten must not report success
